@@ -295,6 +295,17 @@ func (e *uEnv) factory(m uMember) (interceptor.Factory, error) { //nolint:cyclop
 		e.probes = append(e.probes, p)
 
 		return uFactory(func(string) (interceptor.Interceptor, error) { return p, nil }), nil
+	case "nested": // a Chain as a member of the chain: n probes, every one of them failing in Close
+		inner := []interceptor.Interceptor{}
+		for i := 0; i < uOpt(m, "n", 2); i++ {
+			p := &uProbe{id: 100 + len(e.probes), cnt: map[string]int{}}
+			p.closeErr = fmt.Errorf("verif: probe %d close error", p.id) //nolint:err113
+			e.probes = append(e.probes, p)
+			inner = append(inner, p)
+		}
+		ch := interceptor.NewChain(inner)
+
+		return uFactory(func(string) (interceptor.Interceptor, error) { return ch, nil }), nil
 	case "nackgen":
 		opts := []nack.GeneratorOption{
 			nack.GeneratorSize(uint16(uOpt(m, "size", 64))), nack.GeneratorSkipLastN(uint16(uOpt(m, "skip", 0))), //nolint:gosec
